@@ -341,6 +341,22 @@ def c19_c(ctx):
                   fn=bd, node=poss[0] if poss else bd.node)
 
 
+def _unscalar(t):
+    """Strip scalar conversions: float(x), x[0], np.squeeze(x), x.item(), x.squeeze()."""
+    while True:
+        if t[0] == 'call' and t[1] in (('global', 'builtins.float'), ('global', 'float'),
+                                       ('name', 'float'), ('global', 'numpy.squeeze')) and \
+                len(t[2]) == 1:
+            t = t[2][0]
+        elif t[0] == 'sub' and t[2][0] == 'const' and isinstance(t[2][1], int):
+            t = t[1]
+        elif t[0] == 'call' and t[1][0] == 'attr' and t[1][2] in ('item', 'squeeze') and \
+                not t[2]:
+            t = t[1][1]
+        else:
+            return t
+
+
 @obligation('C19-d', 'T8 T13 T4', 'posterior = prior x accepted indicators (and region when '
             'surrogates are used); serial and parallel weights agree', floor=7,
             necessary='a disagreement between the two weight implementations makes results '
@@ -354,8 +370,13 @@ def c19_d(ctx):
     ex = ctx.ex(sp)
     rr = returns(sp)
     t = ex.term(rr[0].value)
-    m = match_any(t, ('float(self.prior.pdf(np.expand_dims(theta, 0))) * _s',
-                      '_s * float(self.prior.pdf(np.expand_dims(theta, 0)))'))
+    m = None
+    mm = match(t, pattern('_a * _b'))
+    if mm is not None:
+        for side in ('a', 'b'):
+            if match(_unscalar(mm[side]),
+                     pattern('self.prior.pdf(np.expand_dims(theta, 0))')) is not None:
+                m = mm
     ctx.check(m is not None, sp, 'prior times indicator sum', 'pr * indicator_sum',
               'the unnormalised density is {}'.format(show(t)[:100]), fn=sp, node=rr[0])
     sel = [n for n in own_nodes(sp.node) if isinstance(n, ast.If) and
@@ -420,7 +441,7 @@ def c19_d(ctx):
         for n in res:
             m = match(exf.term(n.value), pattern('(_d < _e) * _p / _q'))
             md = match(m['d'], pattern('_f(_t)'))
-            mp = match(m['p'], pattern('float(_pr.pdf(np.expand_dims(_t, 0)))'))
+            mp = match(_unscalar(m['p']), pattern('_pr.pdf(np.expand_dims(_t, 0))'))
             mq = match(m['q'], pattern('_r.pdf(_t)'))
             g = any(pol and match(t2, pattern('0 < _q')) is not None and
                     match(t2, pattern('0 < _q'))['q'] == m['q'] for (t2, pol, _) in ctx.guards(f, n))
@@ -484,3 +505,75 @@ def c19_d(ctx):
                   '(i, theta[i], regions[i], prior, funcs[i], eps, n2)',
                   'the worker unpacks the argument tuple in another order than the caller '
                   'packs it', fn=wk, node=un[0] if un else wk.node)
+
+
+@obligation('C19-e', 'T12', 'ROMC converts batch-shaped results to float only after selecting the '
+            'element', floor=4,
+            necessary='with the installed numpy float() of a one-element array raises TypeError: '
+                      'the posterior, the weights and the deterministic objective fail for '
+                      'every input')
+def c19_e(ctx):
+    ctx.fact('numpy >= 2.x: float(a) raises TypeError unless a.ndim == 0; ModelPrior.pdf of a '
+             '(1, d) input, model.generate(batch_size=1)[node] and scikit predict return '
+             'one-element arrays')
+    mods = [ctx.repo.module('elfi.methods.inference.romc'),
+            ctx.repo.module('elfi.methods.posteriors')]
+    batch_apis = ('pdf', 'logpdf', 'predict', 'generate')
+    n = 0
+    for m in mods:
+        fns = list(m.functions.values())
+        for c in m.classes.values():
+            fns += list(c.methods.values())
+        for f in fns:
+            for node in ast.walk(f.node):
+                if not (isinstance(node, ast.Call) and isinstance(node.func, ast.Name) and
+                        node.func.id == 'float' and len(node.args) == 1):
+                    continue
+                a = node.args[0]
+                inner = a
+                selected = False
+                while True:
+                    if isinstance(inner, ast.Subscript):
+                        # an integer index selects an element; a string key only picks a node
+                        idx = inner.slice
+                        if not (isinstance(idx, ast.Constant) and isinstance(idx.value, str)) \
+                                and not isinstance(idx, ast.Name):
+                            selected = True
+                        inner = inner.value
+                        continue
+                    if isinstance(inner, ast.Call) and isinstance(inner.func, ast.Attribute) and \
+                            isinstance(inner.func.value, ast.Name) and \
+                            inner.func.value.id in ('np', 'numpy') and \
+                            inner.func.attr == 'squeeze' and inner.args:
+                        selected = True
+                        inner = inner.args[0]
+                        continue
+                    if isinstance(inner, ast.Call) and isinstance(inner.func, ast.Attribute) and \
+                            inner.func.attr in ('item', 'squeeze'):
+                        selected = True
+                        inner = inner.func.value
+                        continue
+                    break
+                batchy = False
+                if isinstance(inner, ast.Call) and isinstance(inner.func, ast.Attribute) and \
+                        inner.func.attr in batch_apis:
+                    batchy = True
+                if isinstance(inner, ast.Name):
+                    # a local bound to the result of a batch API
+                    ex = ctx.ex(f) if f.node is not None else None
+                    for k in ast.walk(f.node):
+                        if isinstance(k, ast.Assign) and isinstance(k.targets[0], ast.Name) and \
+                                k.targets[0].id == inner.id and isinstance(k.value, ast.Call) and \
+                                isinstance(k.value.func, ast.Attribute) and \
+                                k.value.func.attr in batch_apis:
+                            batchy = True
+                if not batchy:
+                    continue
+                n += 1
+                ctx.check(selected, f, 'element selected before float()', src(a)[:60],
+                          'float({}) converts the one-element array returned by a batch API: '
+                          'TypeError with the installed numpy'.format(src(a)[:80]), fn=f,
+                          node=node)
+    if n < 4:
+        ctx.undecided('expected at least 4 float() conversions of batch results in ROMC, '
+                      'found {}'.format(n))
